@@ -372,7 +372,12 @@ class _VersionIndependentUnmarshaller:
     # Since Python 3.4
     def t_interned(self, save_ref, bytes_for_s=False):
         strsize = unpack("<i", self.fp.read(4))[0]
-        interned = compat_str(self.fp.read(strsize))
+        if self.version_tuple >= (3, 0):
+            # Python 3 writes interned non-ASCII text with this code;
+            # marshal.c: PyUnicode_DecodeUTF8(buffer, n, "surrogatepass")
+            interned = self.fp.read(strsize).decode("utf-8", "surrogatepass")
+        else:
+            interned = compat_str(self.fp.read(strsize))
         self.internStrings.append(interned)
         return self.r_ref(interned, save_ref)
 
